@@ -195,7 +195,7 @@ def reactive_sets(draw, ch):
     return src, snk
 
 
-SET_FORMS = ["list", "int64", "int32", "scalar", "tuple"]
+SET_FORMS = ["list", "int64", "int32", "scalar", "tuple", "col2d", "nested", "row2d"]
 
 
 def set_arg(states, form):
@@ -208,6 +208,12 @@ def set_arg(states, form):
         return np.array(states, dtype=np.int32)
     if form == "tuple":
         return tuple(int(s) for s in states)
+    if form == "col2d":                     # the (k, 1) array np.argwhere returns
+        return np.array(states, dtype=np.int64).reshape(-1, 1)
+    if form == "row2d":
+        return np.array(states, dtype=np.int64).reshape(1, -1)
+    if form == "nested":
+        return [[int(s)] for s in states]
     return [int(s) for s in states]
 
 
